@@ -33,6 +33,12 @@ pub enum Entry {
     PairedTuple,
     UnpairedCi,
     UnpairedInc,
+    // ---- very large populations reached by merging a state with copies of itself `n` times
+    ArithHuge,
+    GeoHuge,
+    HarmHuge,
+    PairedHuge,
+    UnpairedHuge,
     // ---- proportions (n, k [, rate in q])
     PropCi,
     PropWilson,
@@ -51,7 +57,7 @@ pub enum Entry {
     QuantStatsCi,
 }
 
-pub const ALL_ENTRIES: [Entry; 29] = [
+pub const ALL_ENTRIES: [Entry; 34] = [
     Entry::ArithCi,
     Entry::ArithCiTrait,
     Entry::ArithMeanCiTrait,
@@ -67,6 +73,11 @@ pub const ALL_ENTRIES: [Entry; 29] = [
     Entry::PairedTuple,
     Entry::UnpairedCi,
     Entry::UnpairedInc,
+    Entry::ArithHuge,
+    Entry::GeoHuge,
+    Entry::HarmHuge,
+    Entry::PairedHuge,
+    Entry::UnpairedHuge,
     Entry::PropCi,
     Entry::PropWilson,
     Entry::PropZNormal,
@@ -101,6 +112,11 @@ impl Entry {
             Entry::PairedTuple => "Paired::extend_tuple+ci_mean",
             Entry::UnpairedCi => "comparison::Unpaired::ci",
             Entry::UnpairedInc => "Unpaired::extend_a/b+ci_mean",
+            Entry::ArithHuge => "Arithmetic self-merged 2^k times+ci_mean",
+            Entry::GeoHuge => "Geometric self-merged 2^k times+ci_mean",
+            Entry::HarmHuge => "Harmonic self-merged 2^k times+ci_mean",
+            Entry::PairedHuge => "Paired self-merged 2^k times+ci_mean",
+            Entry::UnpairedHuge => "Unpaired self-merged 2^k times+ci_mean",
             Entry::PropCi => "proportion::ci",
             Entry::PropWilson => "proportion::ci_wilson",
             Entry::PropZNormal => "proportion::ci_z_normal",
@@ -128,17 +144,22 @@ impl Entry {
             HarmCi | HarmMeanCiTrait | HarmInc => Group::Mean(Transform::Recip),
             PairedCi | PairedInc | PairedTuple => Group::Paired,
             UnpairedCi | UnpairedInc => Group::Unpaired,
+            ArithHuge | GeoHuge | HarmHuge | PairedHuge | UnpairedHuge => Group::Huge,
             PropCi | PropWilson | PropZNormal | PropWilsonRatio | PropCiTrue | PropCiIf | PropStatsCi | PropIsSignificant => Group::Prop,
             QuantCi | QuantSorted | QuantMaxSize8 | QuantMaxSize1024 | QuantIndices | QuantStatsCi => Group::Quant,
         }
     }
     fn one_shot(&self) -> bool {
-        !matches!(self, Entry::ArithInc | Entry::GeoInc | Entry::HarmInc | Entry::PairedInc | Entry::PairedTuple | Entry::UnpairedInc)
+        !matches!(
+            self,
+            Entry::ArithInc | Entry::GeoInc | Entry::HarmInc | Entry::PairedInc | Entry::PairedTuple | Entry::UnpairedInc | Entry::ArithHuge | Entry::GeoHuge | Entry::HarmHuge | Entry::PairedHuge | Entry::UnpairedHuge
+        )
     }
 }
 
 #[derive(Clone, Copy, Debug, PartialEq, Eq)]
 pub enum Group {
+    Huge,
     Mean(Transform),
     Paired,
     Unpaired,
@@ -328,6 +349,51 @@ pub fn run_case_f<F: Fl>(c: &Case) -> CaseOut {
                 },
                 |_| (),
             ));
+            counts = vec![s.stats_a().sample_count() as u64, s.stats_b().sample_count() as u64];
+            call(|| s.ci_mean(cf), |i| iv_f(&i))
+        }
+        ArithHuge => {
+            let mut s = Arithmetic::<F>::new();
+            fed = Some(call(|| s.extend(&a), |_| ()));
+            for i in 0..c.n {
+                s = if i % 2 == 0 { s + s } else { let mut t = s; t += s; t };
+            }
+            counts = vec![s.sample_count() as u64];
+            call(|| s.ci_mean(cf), |i| iv_f(&i))
+        }
+        GeoHuge => {
+            let mut s = Geometric::<F>::new();
+            fed = Some(call(|| s.extend(&a), |_| ()));
+            for i in 0..c.n {
+                s = if i % 2 == 0 { s + s } else { let mut t = s; t += s; t };
+            }
+            counts = vec![s.sample_count() as u64];
+            call(|| s.ci_mean(cf), |i| iv_f(&i))
+        }
+        HarmHuge => {
+            let mut s = Harmonic::<F>::new();
+            fed = Some(call(|| s.extend(&a), |_| ()));
+            for i in 0..c.n {
+                s = if i % 2 == 0 { s + s } else { let mut t = s; t += s; t };
+            }
+            counts = vec![s.sample_count() as u64];
+            call(|| s.ci_mean(cf), |i| iv_f(&i))
+        }
+        PairedHuge => {
+            let mut s = Paired::<F>::default();
+            fed = Some(call(|| s.extend(&a, &b), |_| ()));
+            for i in 0..c.n {
+                s = if i % 2 == 0 { s.clone() + s } else { let mut t = s.clone(); t += s; t };
+            }
+            counts = vec![s.sample_count() as u64];
+            call(|| s.ci_mean(cf), |i| iv_f(&i))
+        }
+        UnpairedHuge => {
+            let mut s = Unpaired::<F>::default();
+            fed = Some(call(|| s.extend(&a, &b), |_| ()));
+            for i in 0..c.n {
+                s = if i % 2 == 0 { s.clone() + s } else { let mut t = s.clone(); t += s; t };
+            }
             counts = vec![s.stats_a().sample_count() as u64, s.stats_b().sample_count() as u64];
             call(|| s.ci_mean(cf), |i| iv_f(&i))
         }
@@ -602,6 +668,24 @@ pub fn judge(c: &Case, o: &CaseOut) -> Vec<Violation> {
     let name = c.entry.name();
     let ctx = format!("{}<{}> fault={} pos={} conf={} style={}", name, match c.flt { Flt::F32 => "f32", Flt::F64 => "f64", Flt::Int => "-" }, c.fault, c.pos, conf_name(c.conf), c.style);
     match c.entry.group() {
+        Group::Huge => {
+            // valid data replicated 2^k times is valid data: totality (no panic, no NaN, ordered
+            // bounds) and exact counters
+            if let Some(fed) = &o.fed {
+                if !fed.is_ok() {
+                    v.push(Violation::new("C11", &format!("{name}/valid-records-rejected"), 0, format!("{ctx}: feeding returned {}", render_fed(fed))));
+                    return v;
+                }
+            }
+            let mult = 1u64 << c.n.min(62);
+            let want: Vec<u64> = if c.entry == Entry::UnpairedHuge { vec![c.a.len() as u64 * mult, c.b.len() as u64 * mult] } else { vec![c.a.len() as u64 * mult] };
+            if o.counts != want {
+                v.push(Violation::new("C09", &format!("{name}/count-after-self-merges"), 0, format!("{ctx}: {} self-merges of a state holding {:?} records: state reports {:?}, expected {:?}", c.n, c.a.len(), o.counts, want)));
+            }
+            if let Some(x) = judge_ci(name, &o.ci, &[], false, &format!("{ctx} after {} self-merges (count {:?})", c.n, want)) {
+                v.push(x);
+            }
+        }
         Group::Mean(tr) => {
             let transformed = tr != Transform::Id;
             let np = if transformed { first_nonpositive(c.flt, &c.a) } else { None };
@@ -1051,6 +1135,21 @@ pub fn enumerate(seed: u64, max_len: usize) -> Vec<Case> {
                                 }
                             }
                         }
+                    }
+                }
+            }
+        }
+    }
+    // ---- very large populations through self-merges (count = len * 2^k)
+    for flt in [Flt::F32, Flt::F64] {
+        for &e in &[Entry::ArithHuge, Entry::GeoHuge, Entry::HarmHuge, Entry::PairedHuge, Entry::UnpairedHuge] {
+            for len in [2usize, 3, 5] {
+                for k in [0u64, 1, 2, 8, 15, 16, 17, 30, 31, 32, 33, 40] {
+                    for &cf in &[18u8, 19, 20, 29] {
+                        tag += 1;
+                        let a = background(seed, tag, len, flt);
+                        let b = background(seed, tag ^ 0x7777, len, flt);
+                        out.push(Case { entry: e, flt, a, b, n: k, k: 0, q: 0, conf: cf, style: 0, fault: "huge-population".into(), pos: k as u32 });
                     }
                 }
             }
